@@ -271,6 +271,8 @@ def replay_native(h, vals, outdir):
     rdir = os.path.join(VERIF, "replay", h.crate)
     if not os.path.isdir(rdir):
         return None, "no native replay crate for " + h.crate
+    if not os.path.exists(os.path.join(rdir, "Cargo.lock")):
+        shutil.copy(os.path.join(REPO, "Cargo.lock"), os.path.join(rdir, "Cargo.lock"))
     res = {}
     env = dict(ENV)
     env["VERIF_REPLAY_VALUES"] = json.dumps(vals)
